@@ -310,8 +310,30 @@ func (g *Gen) lookupType(name string) types.Type {
 }
 
 // argsReach: frame of a body-less callee given its argument values.
+// argPart: the part of a call's frame that exists only because the callee can reach memory through this argument.
+type argPart struct {
+	arg ssa.Value
+	fr  *Frame
+}
+
 func (g *Gen) argsReach(args []ssa.Value, recv ssa.Value, forCallers bool) *Frame {
 	fr := newFrame()
+	if g.partCollector != nil && !forCallers {
+		col := g.partCollector
+		g.partCollector = nil
+		for _, a := range args {
+			sub := g.argsReach([]ssa.Value{a}, nil, false)
+			if sub.top || len(sub.arrs) > 0 || len(sub.paramDeps) > 0 || len(sub.facts) > 0 {
+				*col = append(*col, argPart{arg: a, fr: sub})
+			}
+		}
+		if recv != nil {
+			sub := g.argsReach(nil, recv, false)
+			*col = append(*col, argPart{arg: recv, fr: sub})
+		}
+		g.partCollector = col
+		return fr
+	}
 	add := func(v ssa.Value) {
 		t := v.Type()
 		if !pointerLike(t) {
@@ -319,6 +341,21 @@ func (g *Gen) argsReach(args []ssa.Value, recv ssa.Value, forCallers bool) *Fram
 		}
 		if forCallers && g.isFreshValue(v, 0) {
 			return // writes into memory allocated by this function are invisible to its callers
+		}
+		if rp := rootParam(v); rp != nil && g.partCollector == nil {
+			if _, isIface := rp.Type().Underlying().(*types.Interface); !isIface && pointerLike(rp.Type()) {
+				if _, isFn := rp.Type().Underlying().(*types.Signature); !isFn {
+					// memory reached only through a (concretely typed) parameter: kept relative to that parameter
+					if fr.paramParts == nil {
+						fr.paramParts = map[*ssa.Parameter]*Frame{}
+					}
+					if fr.paramParts[rp] == nil {
+						fr.paramParts[rp] = newFrame()
+					}
+					fr.paramParts[rp].union(g.typeReach(rp.Type()))
+					return
+				}
+			}
 		}
 		if _, isIface := t.Underlying().(*types.Interface); isIface {
 			if harmlessIface(t) {
@@ -367,6 +404,13 @@ func (g *Gen) fnValueFrame(v ssa.Value) *Frame {
 	switch x := v.(type) {
 	case *ssa.ChangeType:
 		return g.fnValueFrame(x.X)
+	case *ssa.Extract:
+		// a function value returned by a library function that does not write module memory (e.g. context.WithTimeout's cancel)
+		if c, ok := x.Tuple.(*ssa.Call); ok {
+			if f := c.Call.StaticCallee(); f != nil && len(f.Blocks) == 0 && isPureExternal(f) {
+				return newFrame()
+			}
+		}
 	case *ssa.MakeClosure:
 		return g.funcFrame(x.Fn.(*ssa.Function))
 	case *ssa.Function:
@@ -576,17 +620,30 @@ func (g *Gen) resolveDeps(fr *Frame, callee *ssa.Function, args []ssa.Value, inv
 			fr.why = "unresolved parameter dependency"
 			continue
 		}
+		if g.partCollector != nil && !forCallers {
+			sub := newFrame()
+			col := g.partCollector
+			g.partCollector = nil
+			sub.union(g.argsReach([]ssa.Value{args[idx]}, nil, false))
+			g.partCollector = col
+			*col = append(*col, argPart{arg: args[idx], fr: sub})
+			continue
+		}
 		fr.union(g.argsReach([]ssa.Value{args[idx]}, nil, forCallers))
 	}
 }
 
 // closeDeps: closed-world expansion of the remaining parameter dependencies (all call sites in the module).
 func (g *Gen) closeDeps(fr *Frame) *Frame {
-	if len(fr.paramDeps) == 0 {
+	if len(fr.paramDeps) == 0 && len(fr.paramParts) == 0 {
 		return fr
 	}
 	out := newFrame()
 	out.union(fr)
+	for _, sub := range fr.paramParts {
+		out.union(sub)
+	}
+	out.paramParts = nil
 	for p := range fr.paramDeps {
 		delete(out.paramDeps, p)
 		dts := g.paramDynTypes(p, 0)
@@ -811,4 +868,146 @@ func (g *Gen) rootTypeConstraint(c string, t types.Type) string {
 		alts = append(alts, alt)
 	}
 	return or(alts...)
+}
+
+// harmlessType: no module-visible API object memory is reachable through a value of this type
+// (scalars, clients, recorders, contexts, options and structs/pointers made only of those).
+func harmlessType(t types.Type, depth int) bool {
+	if depth > 6 {
+		return false
+	}
+	if !pointerLike(t) {
+		return true
+	}
+	switch u := t.Underlying().(type) {
+	case *types.Interface:
+		return harmlessIface(t)
+	case *types.Pointer:
+		if _, isStruct := u.Elem().Underlying().(*types.Struct); isStruct {
+			return harmlessType(u.Elem(), depth+1)
+		}
+		return false
+	case *types.Struct:
+		if strings.Contains(t.String(), "sync.") {
+			return true
+		}
+		for i := 0; i < u.NumFields(); i++ {
+			if !harmlessType(u.Field(i).Type(), depth+1) {
+				return false
+			}
+		}
+		return true
+	case *types.Signature:
+		return false
+	}
+	return false
+}
+
+// isYoungVal: the value cannot reach memory older than some recorded bound (or reaches nothing at all).
+func (fc *FnCtx) isYoungVal(st *State, v Val, t types.Type) bool {
+	if v.SV != nil {
+		return false
+	}
+	if v.T == "nilref" || v.T == "nilslice" || v.T == zeroOf(sIface) {
+		return true
+	}
+	if _, ok := st.young[v.T]; ok {
+		return true
+	}
+	// interface / slice wrappers around a young reference
+	for k := range st.young {
+		if strings.Contains(v.T, k) && (strings.HasPrefix(v.T, "(mkiface ") || strings.HasPrefix(v.T, "(mkslice ")) {
+			return true
+		}
+	}
+	return false
+}
+
+// youngBound: the bound recorded for v ("" when not young).
+func (fc *FnCtx) youngBound(st *State, v Val) string {
+	if b, ok := st.young[v.T]; ok {
+		return b
+	}
+	for k, b := range st.young {
+		if strings.Contains(v.T, k) && (strings.HasPrefix(v.T, "(mkiface ") || strings.HasPrefix(v.T, "(mkslice ")) {
+			return b
+		}
+	}
+	return ""
+}
+
+// rootParam: v is (an interface wrapping of / a load of the local copy of) a parameter.
+func rootParam(v ssa.Value) *ssa.Parameter {
+	for depth := 0; depth < 6; depth++ {
+		switch x := v.(type) {
+		case *ssa.Parameter:
+			return x
+		case *ssa.MakeInterface:
+			v = x.X
+		case *ssa.ChangeInterface:
+			v = x.X
+		case *ssa.ChangeType:
+			v = x.X
+		case *ssa.UnOp:
+			if x.Op != token.MUL {
+				return nil
+			}
+			a, ok := x.X.(*ssa.Alloc)
+			if !ok || a.Heap {
+				return nil
+			}
+			var stores []*ssa.Store
+			for _, r := range *a.Referrers() {
+				if s, ok := r.(*ssa.Store); ok && s.Addr == a {
+					stores = append(stores, s)
+				}
+			}
+			if len(stores) != 1 {
+				return nil
+			}
+			v = stores[0].Val
+		default:
+			return nil
+		}
+	}
+	return nil
+}
+
+// resolveParts: parameter-relative parts of the callee's frame become relative to the actual arguments.
+func (g *Gen) resolveParts(fr *Frame, callee *ssa.Function, args []ssa.Value, invoke bool, forCallers bool) {
+	for p, sub := range fr.paramParts {
+		if p.Parent() != callee {
+			continue
+		}
+		delete(fr.paramParts, p)
+		idx := -1
+		for i, q := range callee.Params {
+			if q == p {
+				idx = i
+			}
+		}
+		if invoke {
+			idx--
+		}
+		if idx < 0 || idx >= len(args) {
+			fr.union(sub)
+			continue
+		}
+		a := args[idx]
+		if g.partCollector != nil && !forCallers {
+			*g.partCollector = append(*g.partCollector, argPart{arg: a, fr: sub})
+			continue
+		}
+		if forCallers && g.isFreshValue(a, 0) {
+			continue
+		}
+		if rp := rootParam(a); rp != nil {
+			if fr.paramParts[rp] == nil {
+				fr.paramParts[rp] = newFrame()
+			}
+			fr.paramParts[rp].union(sub)
+			continue
+		}
+		fr.union(sub)
+	}
 }
